@@ -42,7 +42,9 @@ RULE = ('random template trees (depth <= 4) over table/point/constant/function(p
         'integral and duration at the start index, 9 wrappers); time dependent scalars with s(0) != s(duration) for every '
         'operator (+ - * and template / scalar), operand order, scalar form and atom kind, bare / in sequences / loops / '
         'repetitions (for / only duration and the two end values are observed); mappings that send a parameter to an '
-        'expression of a name bound by an inner loop, loop ranges that mention the loop index\'s own name (Python oracle); '
+        'expression of a name bound by an inner loop, loop ranges that mention the loop index\'s own name (round 6: strict, judged by the Coq model); round 6: outer loop '
+        'ranges that mention a parameter named like an INNER loop\'s index (third capture site, repaired c936965), strict sub-mappings '
+        'as left operand of scalar - template, tables / point pulses constant up to a jump entry (classes of seeds C07-9/10); '
         'coverage-driven: time dependent scalars over point / multi-channel / pulse-arithmetic / mapped atoms, MappingPT / '
         'ArithmeticPT inside atomic parents, python numbers as ConstantPT arguments, declared multi-channel duration, pad_to '
         'with a callable / pt_kwargs / the current duration; round 5 (deterministic): inputs inside the input class of each '
@@ -65,8 +67,8 @@ TRUSTED = [
     'harness: generators, Gallina printers, leaf walker and the open Newton-Cotes integrator over get_sampled output',
     'numpy float arithmetic is exact on the generated dyadic inputs (checked per case: samples must be dyadic, two grids agree)',
     'the Python oracle (py_spec) for time dependent scalars multiplied with TABLE / point / composite atoms and for template / '
-    'time dependent scalar (no Coq model); + and -, and * over constant / polynomial atoms are embedded in the model; the '
-    'Python oracle for for-loops whose range mentions the loop index\'s own name (outside Wf.wf)',
+    'time dependent scalar (no Coq model); + and -, and * over constant / polynomial atoms are embedded in the model '
+    '(round 6: for-loops whose range mentions the loop index\'s own name are inside Wf.wf and judged by the model)',
     'harness/props/c07_disc.py: the fail-closed AST dataflow analysis that writes coq/C07/GenDisc.v (which dictionary object '
     'a property returns); pad_to call styles (callable / pt_kwargs / current duration) are compared with the plain call in Python',
     'the aliasing / history stream compares the real code with itself (shared and queried repeatedly vs freshly built and '
@@ -75,8 +77,9 @@ TRUSTED = [
     'not cross-checked helpers raw_duration / tainted_channels that decide which failing clause a known finding may explain',
 ]
 ASSUMPTIONS = [
-    'the theorems are about templates satisfying Wf.wf (what the constructors of the real classes enforce, plus: the loop '
-    'index does not occur in its own range, which the code allows); check_corr verifies wf on every generated strict case',
+    'the theorems are about templates satisfying Wf.wf (what the constructors of the real classes enforce; round 6: a loop '
+    'range may mention the loop index\'s own name, the model binds the Sum over a fresh name like ForLoopPulseTemplate._sum_index); '
+    'check_corr verifies wf on every generated strict case',
     'the instantiated pulse of the theorems is Spec.denote; that the real program equals it (duration, exact integral, '
     'samples at 0 and 1/32 before the end, padded region) is checked per generated case, not proved; denote = Some excludes '
     'negative durations / counts (finding), FunctionPT of duration <= 0, atomic parents over empty or unequal operands, '
@@ -97,7 +100,8 @@ ASSUMPTIONS = [
     'the object discipline of Hist.v (which dictionary object a query returns / rewrites) is tied to the source by the '
     'generated table GenDisc.src_disc (C07_hquery_follows_source_discipline, re-proved on every run) and by the aliasing / '
     'history stream; the dictionary VALUES hquery stores are tied by the correspondence only',
-    'ForLoopPT ranges that mention the loop index\'s own name are legal in the code but outside Wf.wf (Python oracle)',
+    'the fresh sum index of the model (successor of the largest name written in range and summand) stands for sympy.Dummy; '
+    'that the two evaluate alike is validated per case (range-mentions-index, range-param-is-inner-index families)',
     'the end voltage of a table/point pulse is the value of its last entry (for a trailing hold step that level is '
     'specified but not played for a positive time)',
 ]
@@ -667,7 +671,7 @@ def to_coq(case, obs):
     if case.get('kind') == 'tdarith' and not G.embeddable(case['pt']):
         return 'CExtern'          # time dependent scalar with * over a table or / : not modelled, Python oracle only (py_spec)
     if case.get('extern'):
-        return 'CExtern'          # outside Wf.wf (a loop range that mentions the loop index's own name): Python oracle only
+        return 'CExtern'          # explicitly marked: Python oracle only (no generator sets this any more, round 6)
     nm = names_of(case)
     rho = g_list('(%d%%N, %s)' % (nm[n], gQ(F(v))) for n, v in sorted(case['params'].items()))
     chobs = []
@@ -936,7 +940,8 @@ MANIFEST = {
                   'are embedded as the product polynomial); round 4: C07_hquery_discipline + '
                   'C07_hquery_follows_source_discipline (the dictionary-object discipline table of Hist.hquery is proved, on every '
                   'run, to cover the table a fail-closed AST analysis reads off the twelve classes\' properties in the tree under '
-                  'test).  Hypotheses: Wf.wf p (checked on every generated case), the '
+                  'test); round 6: loop ranges that name their own loop index are inside the domain (C07_sum_index_fresh, C07_for_closed_form '
+                  'without side condition, witness C07_range_names_index_covered).  Hypotheses: Wf.wf p (checked on every generated case), the '
                   'template is instantiable (denote = Some).  Every generated template - single templates and forests '
                   'sharing sub-template objects under query histories - is evaluated on the real code (symbolic '
                   'dictionaries exactly, the instantiated program integrated exactly leaf by leaf, padded program '
@@ -945,17 +950,18 @@ MANIFEST = {
                   'proven guards.',
     'level_note': 'Trusted: Coq kernel, sympy evaluation of Sum/Max/ceiling/floor/sign/Piecewise/subs/integrate '
                   '(modelled semantically, validated per case), harness integrator and generators, the Python oracle for '
-                  'time dependent scalars multiplied with table / composite atoms or dividing a template, and for loop ranges '
-                  'naming their own index (not modelled in Coq), the dictionary values of Hist.v, the AST discipline analysis. '
-                  'Tested only (no proof): time dependent scalars times tables / dividing a template, loop ranges naming their '
-                  'index, pad_to call styles, the dictionary values behind history independence, real program = denotation. Not '
+                  'time dependent scalars multiplied with table / composite atoms or dividing a template '
+                  '(not modelled in Coq), the dictionary values of Hist.v, the AST discipline analysis. '
+                  'Tested only (no proof): time dependent scalars times tables / dividing a template, '
+                  'pad_to call styles, the dictionary values behind history independence, real program = denotation. Not '
                   'covered: transcendental FunctionPT, TimeReversalPT (integral only), non-dyadic floats. '
                   'Four known deviations of the unchanged code are listed as known findings (initial-head-empty-or-jump, '
                   'final-tail-empty, arith-over-parallel-order, negative-duration-empty), explained clause by clause and channel '
                   'by channel (round 5: the stale entry table-constant-detection, repaired by 01efa2c, was removed together with '
                   'its predicate); six defects '
                   'were repaired in /repo in rounds 1-4 (round 4: the Sum-index capture by MappingPT substitutions and by loop '
-                  'ranges naming their own index, 7d773a1).',
+                  'ranges naming their own index, 7d773a1), one in round 6 (c936965: an outer range parameter named like an inner loop index '
+                  'was captured by the inner Sum in ForLoopPT.duration / integral).',
     'technique': 'Coq proof over a hand-written model + exact correspondence check against the real instantiated pulse',
     'design_ref': 'DESIGN.md §5 C07',
 }
